@@ -413,6 +413,28 @@ proof fn lemma_remove_input_step(s1: &UtxoSet, s0: &UtxoSet, d1: &UtxosDelta, dd
 // [trusted:stand-in] `DUPLICATE_TX_IDS.contains(..)` (the two historic BIP-30 transaction ids): any answer
 #[verifier::external_body]
 fn vp_is_known_duplicate(t: &Txid) -> (r: bool) { unimplemented!() }
+// [trusted:assumed-spec] derive(Default) of UtxosDelta / BlockIngestionStats: empty maps / zero counters
+uninterp spec fn delta_default_spec() -> UtxosDelta;
+#[verifier::external_body]
+proof fn axiom_delta_default()
+    ensures
+        delta_default_spec().added_outpoints@ =~= Map::empty(), delta_default_spec().removed_outpoints@ =~= Map::empty(),
+        delta_default_spec().all_added_outpoints@ =~= Map::empty(), delta_default_spec().all_removed_outpoints@ =~= Set::empty(),
+        delta_default_spec().utxos@ =~= Map::empty(),
+{}
+#[verifier::external_body]
+fn vp_delta_default() -> (r: UtxosDelta) ensures r == delta_default_spec() { unimplemented!() }
+#[verifier::external_body]
+fn vp_stats_default() -> (r: BlockIngestionStats) { unimplemented!() }
+impl IngestingBlock {
+//@extract file=canister/src/utxo_set.rs in="impl IngestingBlock" item="fn new" props=C08
+//@ ret r
+//@ rewrite R3 "UtxosDelta::default\(\)" => "vp_delta_default()"
+//@ rewrite R3 "BlockIngestionStats::default\(\)" => "vp_stats_default()"
+//@ spec
+//@| ensures r.block == block, r.next_tx_idx == 0, r.next_input_idx == 0, r.next_output_idx == 0, r.utxos_delta == delta_default_spec(),
+//@end
+}
 impl UtxoSet {
     // [assumption, stated] transaction-valid block without duplicate outpoints: the outputs of tx from index k on are new
     spec fn outputs_fresh(tx: &Transaction, k: int, u: Map<OutPoint, (TxOut, Height)>, d: &UtxosDelta, g: Map<OutPoint, (TxOut, Height)>) -> bool {
@@ -572,6 +594,24 @@ impl UtxoSet {
 //@|         && tx_domain(tx, p.0 as int, p.1 as int, final(self).utxos@, final(utxos_delta), g),
 //@end
 
+// the START of an ingestion: position (0, 0, 0), empty delta — paused_ok holds trivially there (g is the set as it is now), and the first
+// round already runs under the same contract as every later one
+//@extract file=canister/src/utxo_set.rs in="impl UtxoSet" item="fn ingest_block" props=C08
+//@ ret r
+//@ sigrewrite R9 "block: Block\)" => "block: Block, Ghost(g): Ghost<UMap>)"
+//@ rewrite R9 "self\.ingest_block_continue\(\)" => "self.ingest_block_continue(Ghost(g))"
+//@ spec
+//@| requires
+//@|     old(self).ingesting_block is None, g == old(self).utxos@, old(self).next_height < u32::MAX,
+//@|     block_static(&block), block_domain(&block, 0, 0, 0, old(self).utxos@, &delta_default_spec(), g),
+//@| ensures
+//@|     r matches Slicing::Paused(_) ==> final(self).ingesting_block is Some && paused_ok(final(self), g) && final(self).next_height == old(self).next_height,
+//@|     r matches Slicing::Done(_) ==> final(self).ingesting_block is None && final(self).next_height == old(self).next_height + 1
+//@|         && final(self).utxos@ == apply_txs(g, block.txs@, block.txs@.len() as int, old(self).next_height),
+//@ before "self.ingest_block_continue(Ghost(g))"
+//@| proof { axiom_delta_default(); }
+//@end
+
 // the ENTRY of every round: resumes at the stored position; at a pause it stores the position to resume from
 //@extract file=canister/src/utxo_set.rs in="impl UtxoSet" item="fn ingest_block_continue" props=C08
 //@ ret r
@@ -585,6 +625,7 @@ impl UtxoSet {
 //@ spec
 //@| requires paused_ok(old(self), g), old(self).next_height < u32::MAX,
 //@| ensures
+//@|     r is Some <==> old(self).ingesting_block is Some,
 //@|     // at EVERY pause the readers' view is the one from before the ingestion began, and the stored position is exact ...
 //@|     r matches Some(Slicing::Paused(_)) ==> final(self).ingesting_block is Some && paused_ok(final(self), g)
 //@|         && final(self).next_height == old(self).next_height,
